@@ -340,3 +340,150 @@ def slot_control_ok() -> bool:
     fns = {n.name: n for n in m.body[0].body if isinstance(n, ast.FunctionDef)}
     return [x[1] for x in slot_memo_findings(fns["lossy"])] == ["sc"] and slot_memo_findings(fns["exact"]) == [] \
         and [x[1] for x in slot_memo_findings(fns["onshared"])] == ["self.scenarioIdx"]
+
+
+# ------------------------------------------------------------------------------------------------------------------
+# invalidation: a memo on the object whose values depend on fields of the object must be emptied by every writer of those fields
+
+def _field_reads(e: ast.AST, asg: dict, seen=None) -> set:
+    """fields of self the expression is computed from: ("attr", name) for self.name, ("item", table, key) for self.table["key"] /
+    self.table.get("key")"""
+    seen = seen if seen is not None else set()
+    out = set()
+    for n in ast.walk(e):
+        if isinstance(n, ast.Subscript) and isinstance(n.ctx, ast.Load) and isinstance(n.value, ast.Attribute) and isinstance(n.value.value, ast.Name) \
+                and n.value.value.id == "self" and isinstance(n.slice, ast.Constant):
+            out.add(("item", n.value.attr, n.slice.value))
+        elif isinstance(n, ast.Call) and isinstance(n.func, ast.Attribute) and n.func.attr == "get" and isinstance(n.func.value, ast.Attribute) \
+                and isinstance(n.func.value.value, ast.Name) and n.func.value.value.id == "self" and n.args and isinstance(n.args[0], ast.Constant):
+            out.add(("item", n.func.value.attr, n.args[0].value))
+        elif isinstance(n, ast.Name) and isinstance(n.ctx, ast.Load) and n.id in asg and n.id not in seen:
+            seen.add(n.id)
+            for v in asg[n.id]:
+                out |= _field_reads(v, asg, seen)
+    return out
+
+
+def _guards(node: ast.AST, root: ast.AST) -> list:
+    """[(If node, branch)] enclosing `node` inside `root`"""
+    out = []
+    def rec(n, acc):
+        if n is node:
+            out.extend(acc)
+            return True
+        if isinstance(n, ast.If):
+            for st in n.body:
+                if rec(st, acc + [(n, "T")]):
+                    return True
+            for st in n.orelse:
+                if rec(st, acc + [(n, "F")]):
+                    return True
+            return False
+        for c in ast.iter_child_nodes(n):
+            if rec(c, acc):
+                return True
+        return False
+    rec(root, [])
+    return out
+
+
+def invalidation_findings(methods: dict) -> list:
+    """methods: name -> FunctionDef of one class.  [(container, field description, writer method, write stmt)] for memo containers
+    on self (keyed soundly or not) whose stored values are computed from fields of self that some other method writes without
+    emptying the container afterwards."""
+    out = []
+    memos = {}     # container attr -> set of field reads
+    for name, f in methods.items():
+        asg = _assigned(f)
+        for n in ast.walk(f):
+            if isinstance(n, ast.Assign) and len(n.targets) == 1 and isinstance(n.targets[0], ast.Subscript):
+                t = n.targets[0]
+                if isinstance(t.value, ast.Attribute) and isinstance(t.value.value, ast.Name) and t.value.value.id == "self":
+                    cont = t.value.attr
+                    # answered from: a read of the same container flows into a return of this method
+                    answered = any(isinstance(r, ast.Return) and r.value is not None and (
+                        cont in {x.attr for x in ast.walk(r.value) if isinstance(x, ast.Attribute)} or
+                        any(isinstance(x, ast.Name) and any(cont in {y.attr for y in ast.walk(v) if isinstance(y, ast.Attribute)} for v in asg.get(x.id, []))
+                            for x in ast.walk(r.value))) for r in ast.walk(f))
+                    if not answered:
+                        continue
+                    reads = {r for r in _field_reads(n.value, asg) if not (r[0] == "item" and r[1] == cont)}
+                    if reads:
+                        memos.setdefault(cont, set()).update(reads)
+    for cont, reads in sorted(memos.items()):
+        for name, g in methods.items():
+            if name == "__init__":
+                continue
+            for w in ast.walk(g):
+                if not isinstance(w, (ast.Assign, ast.AugAssign)):
+                    continue
+                for t in (w.targets if isinstance(w, ast.Assign) else [w.target]):
+                    hit = None
+                    if isinstance(t, ast.Subscript) and isinstance(t.value, ast.Attribute) and isinstance(t.value.value, ast.Name) and t.value.value.id == "self":
+                        tab = t.value.attr
+                        keys = {r[2] for r in reads if r[0] == "item" and r[1] == tab}
+                        if not keys:
+                            continue
+                        if isinstance(t.slice, ast.Constant):
+                            if t.slice.value in keys:
+                                hit = (f"self.{tab}[{t.slice.value!r}]", {t.slice.value}, None)
+                        else:
+                            hit = (f"self.{tab}[{norm(t.slice)}]", keys, norm(t.slice))
+                    if hit is None:
+                        continue
+                    desc, need_keys, keyvar = hit
+                    wg = _guards(w, g)
+                    ok = False
+                    for c in ast.walk(g):
+                        is_clear = (isinstance(c, ast.Call) and isinstance(c.func, ast.Attribute) and c.func.attr == "clear" and norm(c.func.value) == f"self.{cont}") or \
+                                   (isinstance(c, ast.Assign) and any(norm(t2) == f"self.{cont}" for t2 in c.targets))
+                        if not is_clear or getattr(c, "lineno", 0) <= w.lineno:
+                            continue
+                        cg = [x for x in _guards(c, g) if x not in wg]
+                        if not cg:
+                            ok = True
+                            break
+                        # a clear guarded by a test on the written key that admits every key the memo depends on
+                        if keyvar is not None and len(cg) == 1 and cg[0][1] == "T":
+                            tst = cg[0][0].test
+                            admitted = set()
+                            if isinstance(tst, ast.Compare) and len(tst.ops) == 1 and norm(tst.left) == keyvar:
+                                if isinstance(tst.ops[0], ast.In) and isinstance(tst.comparators[0], (ast.Tuple, ast.List, ast.Set)):
+                                    admitted = {e.value for e in tst.comparators[0].elts if isinstance(e, ast.Constant)}
+                                elif isinstance(tst.ops[0], ast.Eq) and isinstance(tst.comparators[0], ast.Constant):
+                                    admitted = {tst.comparators[0].value}
+                            if need_keys <= admitted:
+                                ok = True
+                                break
+                    if not ok:
+                        out.append((cont, desc, name, w))
+    return out
+
+
+_INV_CONTROL = '''
+class K:
+    def conv(self, i):
+        d = self._memo.get(i)
+        if d is None:
+            d = self.attributes["start"] + i * self.attributes["step"]
+            self._memo[i] = d
+        return d
+    def set_ok(self, key, value):
+        self.attributes[key] = value
+        if key in ("start", "step"):
+            self._memo.clear()
+    def set_bad(self, key, value):
+        self.attributes[key] = value
+        if key == "start":
+            self._memo.clear()
+        if key == "res":
+            self.attributes["step"] = value
+'''
+
+
+def invalidation_control_ok() -> bool:
+    m = ast.parse(_INV_CONTROL)
+    fns = {n.name: n for n in m.body[0].body if isinstance(n, ast.FunctionDef)}
+    good = invalidation_findings({"conv": fns["conv"], "set_ok": fns["set_ok"]})
+    bad = invalidation_findings({"conv": fns["conv"], "set_bad": fns["set_bad"]})
+    return good == [] and sorted((b[1], b[2]) for b in bad) == [("self.attributes['step']", "set_bad"), ("self.attributes[key]", "set_bad")]
